@@ -1566,6 +1566,14 @@ static void *peg_unmarshal(JanetMarshalContext *ctx) {
     size_t bytecode_len = janet_unmarshal_size(ctx);
     uint32_t num_constants = (uint32_t) janet_unmarshal_int(ctx);
 
+    /* Every bytecode word and every constant takes at least one byte of input, so larger
+     * counts can never be satisfied. Rejecting them here also keeps the size arithmetic
+     * below from wrapping around (an allocation smaller than what the loops then fill in). */
+    if (bytecode_len > INT32_MAX || num_constants > INT32_MAX)
+        janet_panic("invalid peg size");
+    if (bytecode_len + num_constants > 0)
+        janet_unmarshal_ensure(ctx, bytecode_len + num_constants - 1);
+
     /* Calculate offsets. Should match those in make_peg */
     size_t bytecode_start = size_padded(sizeof(JanetPeg), sizeof(uint32_t));
     size_t bytecode_size = bytecode_len * sizeof(uint32_t);
